@@ -68,9 +68,9 @@ class Path:
 
 
 WELL_KNOWN_DISC = {'Ok': 0, 'Err': 1, 'None': 0, 'Some': 1, 'Continue': 0, 'Break': 1, 'Ready': 0, 'Pending': 1,
-                   'Less': -1, 'Equal': 0, 'Greater': 1, 'Borrowed': 0, 'Owned': 1}
+                   'Less': -1, 'Equal': 0, 'Greater': 1, 'Borrowed': 0, 'Owned': 1, 'V4': 0, 'V6': 1}
 WELL_KNOWN_ENUM = {'Ok': 'Result', 'Err': 'Result', 'None': 'Option', 'Some': 'Option', 'Continue': 'ControlFlow', 'Break': 'ControlFlow',
-                   'Ready': 'Poll', 'Pending': 'Poll'}
+                   'Ready': 'Poll', 'Pending': 'Poll', 'V4': 'SocketAddr', 'V6': 'SocketAddr'}
 
 BINOPS = ('Add', 'Sub', 'Mul', 'Div', 'Rem', 'BitAnd', 'BitOr', 'BitXor', 'Shl', 'Shr', 'Lt', 'Le', 'Gt', 'Ge', 'Eq', 'Ne',
           'AddWithOverflow', 'SubWithOverflow', 'MulWithOverflow', 'AddUnchecked', 'SubUnchecked', 'MulUnchecked', 'ShlUnchecked',
